@@ -8,19 +8,19 @@ use vh::{json, Cli, Report, Rng};
 fn main() {
     let cli = Cli::parse();
     let mut rep = Report::new("C04", &cli);
-    rep.note("rule", json!("case = Sort / VisualSort (both positional metrics, shards 1..4) x interleaved history of 30..90 predict calls over 2..4 scenes; in 60% of the cases the scenes' objects occupy exactly the same image coordinates. Monitors: (1) lifecycle model: no record may continue a track of another scene; (2) differential: for every scene the projection of the history onto that scene is replayed on a fresh tracker and the interleaved run's records for that scene must equal it call by call - same grouping up to an id bijection built incrementally, and bit-identical boxes, epochs, lengths, custom ids. A grouping difference is handed to the explain-divergence oracle (C02 / C12 references on both runs' own pre-call states): it is a violation unless both outcomes are valid optimal associations (then it is counted as a tie divergence); a difference in numbers with equal grouping is always a violation. Non-trivial: scene projections with >= 2 calls in which another scene's call lies between two calls of this scene; distinct by (history, scene)."));
+    rep.note("rule", json!("case = Sort / VisualSort / BatchSort / BatchVisualSort (both positional metrics, shards 1..4; for the batch kinds the interleaving is a batch holding several scenes and the projection feeds one scene per batch) x interleaved history of 30..90 predict calls over 2..4 scenes; in 60% of the cases the scenes' objects occupy exactly the same image coordinates. Monitors: (1) lifecycle model: no record may continue a track of another scene; (2) differential: for every scene the projection of the history onto that scene is replayed on a fresh tracker and the interleaved run's records for that scene must equal it call by call - same grouping up to an id bijection built incrementally, and bit-identical boxes, epochs, lengths, custom ids. A grouping difference is handed to the explain-divergence oracle (C02 / C12 references on both runs' own pre-call states): it is a violation unless both outcomes are valid optimal associations (then it is counted as a tie divergence); a difference in numbers with equal grouping is always a violation. Non-trivial: scene projections with >= 2 calls in which another scene's call lies between two calls of this scene; distinct by (history, scene)."));
     rep.note("assumptions", json!(["histories contain no bit-identical detections within a call"]));
-    let n = cli.cases(160, 5000);
+    let n = cli.cases(400, 5000);
     for idx in cli.index_range(n) {
         let mut rng = Rng::for_case(cli.seed, cli.shard, idx);
-        let kind = if idx % 2 == 0 { Kind::Sort } else { Kind::Visual };
+        let kind = [Kind::Sort, Kind::Visual, Kind::Visual, Kind::BatchVisual, Kind::BatchSort][(idx % 5) as usize];
         let mut cfg = gen_cfg(&mut rng, kind);
         cfg.max_idle = rng.usize(4);
         let scenes = 2 + rng.usize(3);
         let w = WorldOpts {
             scenes,
             same_region: rng.chance(0.6),
-            preset: *rng.pick(&["random", "crossing", "convoy", "crowd", "lookalikes", "stop-and-go"]),
+            preset: *rng.pick(&["random", "crossing", "convoy", "crowd", "lookalikes", "stop-and-go", "teleport", "teleport"]),
             rotated: rng.chance(0.25),
             features: kind.is_visual(),
             feat_dim: 4,
@@ -29,8 +29,9 @@ fn main() {
             steps: 40,
             low_quality: rng.chance(0.3),
             avoid_coincident: kind.is_visual() && (cfg.vis.own_use + cfg.vis.own_collect > 0.0),
+            low_conf: false,
         };
-        let h = HistOpts { len: if cli.small { 8 } else { 30 + rng.usize(61) }, lifecycle_ops: false, clear_wasted: false, auto_waste_ops: false, batches: false, empty_calls: true };
+        let h = HistOpts { len: if cli.small { 8 } else { 30 + rng.usize(61) }, lifecycle_ops: false, clear_wasted: false, auto_waste_ops: false, batches: kind.is_batch(), empty_calls: true };
         let ops = gen_history(&mut rng, &w, &h);
         rep.eval();
         // interleaved run with pre-call snapshots
@@ -46,16 +47,42 @@ fn main() {
         }
         let mut log: Vec<CallLog> = vec![];
         let mut bad = false;
+        // batch kinds: the interleaving is a batch holding several scenes; the projection feeds one scene per batch
+        let mut flat: Vec<(usize, u64, Vec<Det>, Vec<Rec>, Vec<LiveTrack>, usize)> = vec![];
         for (ci, op) in ops.iter().enumerate() {
-            if let Op::Predict { scene, dets } = op {
-                let pre = trk.live();
-                let epoch = trk.epoch(*scene) + 1;
-                let recs = trk.predict(*scene, dets);
+            match op {
+                Op::Predict { scene, dets } => {
+                    let pre = trk.live();
+                    let epoch = trk.epoch(*scene) + 1;
+                    let recs = trk.predict(*scene, dets);
+                    flat.push((ci, *scene, dets.clone(), recs, pre, epoch));
+                }
+                Op::Batch(b) => {
+                    let pre = trk.live();
+                    let epochs: HashMap<u64, usize> = b.iter().map(|(s, _)| (*s, trk.epoch(*s) + 1)).collect();
+                    let out = trk.predict_batch(b);
+                    for (s, dets) in b {
+                        let recs = out.iter().find(|x| x.0 == *s).map(|x| x.1.clone()).unwrap_or_default();
+                        flat.push((ci, *s, dets.clone(), recs, pre.clone(), epochs[s]));
+                    }
+                }
+                _ => {}
+            }
+        }
+        for (ci, scene, dets, recs, pre, epoch) in flat.into_iter().map(|(a, b, c, d, e, f)| (a, b, c, d, e, f)) {
+            let (scene, dets) = (&scene, &dets);
+            {
                 for (sig, d) in life.on_predict(*scene, dets, &recs, false) {
                     rep.violation(&format!("C04/{:?}/interleaved/{}", kind, sig), idx, json!({"cfg": cfg.js(), "call": ci, "scene": scene, "detail": d}));
                     bad = true;
                 }
                 rep.count("interleaved_calls");
+                // every interleaved call must also be a valid association on its own (C02 / C12 references):
+                // cross-scene leakage of per-call state shows here even when the grouping happens to coincide
+                if let Judgement::Invalid(sig, d) = judge_call(&cfg, *scene, epoch, dets, &recs, &pre) {
+                    rep.violation(&format!("C04/{:?}/interleaved-call-invalid/{}", kind, sig), idx, json!({"cfg": cfg.js(), "call": ci, "scene": scene, "detail": d}));
+                    bad = true;
+                }
                 log.push(CallLog { scene: *scene, dets: dets.clone(), recs, pre, epoch, pos: ci });
                 if bad {
                     break;
@@ -74,7 +101,7 @@ fn main() {
             let mut solo = AnyTracker::new(&cfg);
             let mut map: HashMap<u64, u64> = HashMap::new();
             let mut rev: HashMap<u64, u64> = HashMap::new();
-            let interleaved_between = calls.windows(2).any(|w| w[1].pos > w[0].pos + 1);
+            let interleaved_between = calls.windows(2).any(|w| w[1].pos > w[0].pos + 1) || (kind.is_batch() && scenes >= 2);
             for (k, c) in calls.iter().enumerate() {
                 let pre_solo = solo.live();
                 let recs_solo = solo.predict(s, &c.dets);
